@@ -19,7 +19,8 @@ NON_CONSUMING = {"isinstance", "len", "type", "id", "bool", "callable", "hasattr
 # ``cycle``/``count``/``repeat`` are infinite: they cannot be exhausted, so re-iterating them is not a defect
 LAZY_WRAPPERS = {"map", "filter", "zip", "enumerate", "reversed", "iter", "chain", "islice", "tee", "product", "permutations",
                  "combinations", "accumulate", "starmap", "takewhile", "dropwhile", "zip_longest", "groupby", "pairwise"}
-CONCRETE_TYPES = {"list", "tuple", "set", "frozenset", "dict", "str", "bytes", "range", "List", "Tuple", "Set", "FrozenSet", "Dict", "deque"}
+CONCRETE_TYPES = {"list", "tuple", "set", "frozenset", "dict", "str", "bytes", "range", "List", "Tuple", "Set", "FrozenSet", "Dict", "deque", "Sequence", "Collection", "Sized",
+                  "Mapping", "AbstractSet", "MutableSequence", "MutableSet", "MutableMapping"}
 
 
 class Event:
@@ -414,6 +415,26 @@ class _Walker:
         if isinstance(value, ast.IfExp) and (self.an.oneshot_expr(self.fi, value.body) or self.an.oneshot_expr(self.fi, value.orelse)):
             self.set_subject(name, FRESH)
             return
+        if isinstance(value, ast.IfExp):
+            # ``x = x if <test> else list(x)`` with a test that does not establish a re-iterable type: on the branch that
+            # keeps x the subject is unchanged; a branch that is another subject makes the target an alias of it
+            branches = [b for b in (value.body, value.orelse) if isinstance(b, ast.Name) and self.state.get(b.id) in (FRESH, CONSUMED, MAYBE)]
+            if any(self.an.materialised_expr(value, b.id) for b in branches):
+                # ``y = x if isinstance(x, list) else list(x)``: a re-iterable value on both branches
+                if name in self.state:
+                    self.state[name] = FREE
+                return
+            if any(b.id == name for b in branches):
+                t = value.test.operand if isinstance(value.test, ast.UnaryOp) and isinstance(value.test.op, ast.Not) else value.test
+                spec = t.args[1] if isinstance(t, ast.Call) and call_name(t) == ("isinstance",) and len(t.args) == 2 else None
+                elts = (spec.elts if isinstance(spec, ast.Tuple) else [spec]) if spec is not None else []
+                names = [attr_chain(e)[-1] if attr_chain(e) else None for e in elts]
+                if names and any(n in ("Iterable", "Iterator", "Generator", "Reversible", "object") for n in names):
+                    return  # the kept branch can be a one-shot iterator: still the same subject
+                raise AnalysisError(f"{self.fi.where}: `{unparse(value)[:70]}` keeps `{name}` under a test that is not recognised as establishing a re-iterable type; one-shot discipline not decided")
+            if branches:
+                self.set_subject(name, FRESH)
+                return
         if isinstance(value, ast.Name) and self.state.get(value.id) in (FRESH, CONSUMED, MAYBE) and value.id != name:
             # alias of a subject: the alias carries the (already escaped) state
             self.set_subject(name, FRESH)
